@@ -43,7 +43,7 @@ from unified_planning.model.fluent import get_all_fluent_exp
 import z3
 from pyvc.values import Bool as PBool, Int as PInt
 from pyvc.values import Ref, Seq, Map, Set, Opt, Enum, SBool, SRef, fresh_name, to_z3  # explicit: a star import would shadow the shortcuts' And/Or/Not
-from pyvc.values import Rec, ExcVal, SUnion
+from pyvc.values import Rec, ExcVal, SUnion, Loc
 from pyvc.verify import Unit
 from pyvc.engine import LoopSpec, OPAQUE
 from pyvc import builtins as B
@@ -67,7 +67,7 @@ def _p(t, name, *argsorts):
 def _install(eng):
     eng.partial_classes.add(_pm._KindFactory)
     for m in ("set_typing", "set_parameters", "set_effects_kind", "set_conditions_kind", "set_fluents_type", "set_numbers", "set_problem_type",
-              "set_time", "set_expression_duration", "set_quality_metrics", "set_problem_class", "set_initial_state", "set_constraints_kind"):
+              "set_time", "set_expression_duration", "set_simulated_entities", "set_quality_metrics", "set_problem_class", "set_initial_state", "set_constraints_kind"):
         KindRec.methods[m] = (lambda e, st, selfv, a, k: (_log(st, "set", a[0]), iter([(st, None)]))[1])
     for m in ("unset_problem_type", "unset_time", "unset_effects_kind"):
         KindRec.methods[m] = (lambda e, st, selfv, a, k: (_log(st, "unset", a[0]), iter([(st, None)]))[1])
@@ -262,7 +262,193 @@ P_UNITS = [
     KindUnit("update_problem_kind_effect", lambda eng, st: Effect10.fresh("effect"), _t_effect, "effect kind / condition -> effects-kind features"),
     KindUnit("update_problem_kind_fluent", lambda eng, st: Fluent10.fresh("fluent"), _t_fluent, "fluent type -> fluents-type / numbers / typing features"),
 ]
-UNITS = P_UNITS
+# ------------------------------------------------------------------------------------------------ traversal units
+# Problem._kind_factory and _KindFactory.update_problem_kind_action (instantaneous actions): every element of the problem / action is
+# handed to the updater proved above (ghost sets record what each updater was called on), for collections of any size.
+Action10 = Ref("Action10", _pm.InstantaneousAction)
+Process10, Event10, Timing10, Interval10 = Ref("Process10"), Ref("Event10"), Ref("Timing10"), Ref("Interval10")
+EffList10, GoalList10 = Ref("EffectList10"), Ref("GoalList10")
+EffList10.iter_items = Effect10
+GoalList10.iter_items = FNode10
+SimEff10 = Ref("SimulatedEffect10")
+is_sensing = B._uf("Action10.is_sensing", Action10.z3sort(), z3.BoolSort())
+GHOSTS = {"_g_params": Param10, "_g_exprs": FNode10, "_g_effects": Effect10, "_g_actions": Action10, "_g_processes": Process10, "_g_events": Event10}
+Action10.fields.update({"parameters": Seq(Param10), "preconditions": Seq(FNode10), "effects": Seq(Effect10), "simulated_effect": Opt(SimEff10)})
+
+
+def _action_isinstance(eng, st, v, clss):
+    import unified_planning.model.contingent as _ct
+    import unified_planning.model.mixins as _mx2
+    names = {getattr(c, "__name__", "") for c in clss}
+    if names == {"SensingAction"}:
+        return SBool(is_sensing(v.z))
+    if names == {"MotionConstraintsSetMixin"} or names == {"DurativeAction"}:
+        return False
+    if names == {"InstantaneousAction"}:
+        return True
+    raise Unsupported(f"isinstance(action, {names})")
+
+
+Action10.isinstance_hook = _action_isinstance
+
+
+def _ghost_add(field):
+    def c(eng, st, args, kw):
+        fac, x = args[0], args[1]
+        loc = st.getfield(fac, field)
+        st.store(loc, st.load(loc).add(x))
+        yield st, None
+    return c
+
+
+def _traversal_factory(eng, st):
+    extra = {g: st.alloc(SSet.empty(t), "set") for g, t in GHOSTS.items()}
+    return _factory(eng, st, extra)
+
+
+from pyvc.values import SSet, SSeq, Unsupported, zint  # noqa: E402
+
+
+def _all_in(seq, sset):
+    j = z3.Int(fresh_name("j"))
+    return z3.ForAll([j], z3.Implies(z3.And(0 <= j, j < seq.n), z3.Select(sset.has, z3.Select(seq.arr, j))))
+
+
+class ActionTraversal(Unit):
+    prop = "C10"
+    name = "_KindFactory.update_problem_kind_action (instantaneous)"
+    doc = "every parameter, precondition and effect of the action is handed to its updater; sensing -> CONTINGENT; simulated effect -> SIMULATED_EFFECTS"
+
+    def target(self):
+        return _pm._KindFactory.update_problem_kind_action
+
+    def configure(self, eng):
+        _install(eng)
+        eng.contracts[_pm._KindFactory.update_action_parameter] = _ghost_add("_g_params")
+        eng.contracts[_pm._KindFactory.update_problem_kind_expression] = _ghost_add("_g_exprs")
+        eng.contracts[_pm._KindFactory.update_problem_kind_effect] = _ghost_add("_g_effects")
+        QNA = "unified_planning.model.problem._KindFactory.update_problem_kind_action"
+
+        def mk(field):
+            def inv(L):
+                return [(f"the scanned prefix was handed to the updater ({field})", _all_in_prefix(L._seq, zint(L._i), L.st.load(L.st.getfield(L.self, field))))]
+            return inv
+        eng.loops[(QNA, 0)] = LoopSpec(mk("_g_params"), modifies=["param", "self._g_params"], types={"self._g_params": Set(Param10)})
+        eng.loops[(QNA, 1)] = LoopSpec(mk("_g_exprs"), modifies=["c", "self._g_exprs"], types={"self._g_exprs": Set(FNode10)})
+        eng.loops[(QNA, 2)] = LoopSpec(mk("_g_effects"), modifies=["e", "self._g_effects"], types={"self._g_effects": Set(Effect10)})
+
+    def setup(self, eng, st):
+        fac = _traversal_factory(eng, st)
+        a = Action10.fresh("action")
+        return [fac, a], {}, dict(fac=fac, a=a)
+
+    def post(self, eng, ctx, st, out):
+        if out[0] != "return":
+            return
+        fac, a = ctx["fac"], ctx["a"]
+        g = lambda f: st.load(st.getfield(fac, f))   # noqa: E731
+        for fld, gh in (("parameters", "_g_params"), ("preconditions", "_g_exprs"), ("effects", "_g_effects")):
+            seq = B.field_uf(eng, st, a, fld)
+            st.oblige(f"every element of action.{fld} was handed to its updater", _all_in(seq, g(gh)))
+        st.oblige("sensing action -> CONTINGENT", z3.Implies(is_sensing(a.z), _present(st, "CONTINGENT")))
+        se_none = B._uf("Action10.simulated_effect.isnone", Action10.z3sort(), z3.BoolSort())(a.z)
+        st.oblige("simulated effect -> SIMULATED_EFFECTS", z3.Implies(z3.Not(se_none), _present(st, "SIMULATED_EFFECTS")))
+
+
+def _all_in_prefix(seq, i, sset):
+    j = z3.Int(fresh_name("j"))
+    return z3.ForAll([j], z3.Implies(z3.And(0 <= j, j < i), z3.Select(sset.has, z3.Select(seq.arr, j))))
+
+
+class ProblemTraversal(Unit):
+    prop = "C10"
+    name = "Problem._kind_factory"
+    doc = ("every action, process, event, timed effect, trajectory constraint, timed goal and goal of the problem is handed to its updater; "
+           "non-empty timed effects / timed goals / processes / events set their time features; Always -> STATE_INVARIANTS, other constraints -> TRAJECTORY_CONSTRAINTS")
+
+    def target(self):
+        return _pm.Problem._kind_factory
+
+    def configure(self, eng):
+        _install(eng)
+        eng.partial_classes.add(_pm.Problem)
+
+        def new_factory(eng_, st, args, kw):
+            fac = _traversal_factory(eng_, st)
+            st.ghost["factory"] = fac
+            yield st, fac
+        eng.contracts[_pm._KindFactory] = new_factory
+        eng.contracts[_pm._KindFactory.update_problem_kind_action] = _ghost_add("_g_actions")
+        eng.contracts[_pm._KindFactory.update_problem_kind_process] = _ghost_add("_g_processes")
+        eng.contracts[_pm._KindFactory.update_problem_kind_event] = _ghost_add("_g_events")
+        eng.contracts[_pm._KindFactory.update_problem_kind_effect] = _ghost_add("_g_effects")
+        eng.contracts[_pm._KindFactory.update_problem_kind_expression] = _ghost_add("_g_exprs")
+
+        def init_state(eng_, st, args, kw):
+            st.ghost["initial_state_updated"] = True
+            yield st, None
+        eng.contracts[_pm._KindFactory.update_problem_kind_initial_state] = init_state
+        FNode10.observers["is_always"] = ((), PBool)
+        QNK = "unified_planning.model.problem.Problem._kind_factory"
+
+        def mk(field, extra=None):
+            def inv(L):
+                fac = L.factory
+                now = L.st.load(L.st.getfield(fac, field))
+                pre = L._pre.st.load(L._pre.st.getfield(fac, field))
+                x = z3.Const(fresh_name("x"), now.tk.z3sort())
+                out = [(f"the scanned prefix was handed to the updater ({field})", _all_in_prefix(L._seq, zint(L._i), now)),
+                       (f"what was recorded before the loop stays recorded ({field})", z3.ForAll([x], z3.Implies(z3.Select(pre.has, x), z3.Select(now.has, x))))]
+                return out
+            return inv
+        specs = [("_g_actions", "action", Action10), ("_g_processes", "process", Process10), ("_g_events", "event", Event10),
+                 ("_g_effects", "effect", Effect10), ("_g_exprs", "tc", FNode10), ("_g_exprs", "goal", FNode10)]
+        for k, (field, var, t) in enumerate(specs):
+            eng.loops[(QNK, k)] = LoopSpec(mk(field), modifies=[var, "factory." + field], types={"factory." + field: Set(t)})
+
+    def setup(self, eng, st):
+        from pyvc.values import Map
+        f = {"_actions": st.alloc(eng.fresh_of(st, Seq(Action10), "_actions"), "list"),
+             "_processes": st.alloc(eng.fresh_of(st, Seq(Process10), "_processes"), "list"),
+             "_events": st.alloc(eng.fresh_of(st, Seq(Event10), "_events"), "list"),
+             "_timed_effects": st.alloc(eng.fresh_of(st, Map(Timing10, EffList10, ordered=True), "_timed_effects"), "dict"),
+             "_timed_goals": st.alloc(eng.fresh_of(st, Map(Interval10, GoalList10, ordered=True), "_timed_goals"), "dict"),
+             "_trajectory_constraints": st.alloc(eng.fresh_of(st, Seq(FNode10), "_trajectory_constraints"), "list"),
+             "_goals": st.alloc(eng.fresh_of(st, Seq(FNode10), "_goals"), "list"),
+             "_env": Ref("Environment10").fresh("env")}
+        c0 = {k: st.load(v) for k, v in f.items() if isinstance(v, Loc)}
+        pb = st.alloc(Rec(_pm.Problem, f), "problem")
+        return [pb], {}, dict(c0=c0)
+
+    def post(self, eng, ctx, st, out):
+        if out[0] != "return":
+            return
+        fac = out[1]
+        c0 = ctx["c0"]
+        g = lambda f: st.load(st.getfield(fac, f))   # noqa: E731
+        st.oblige("every action is handed to update_problem_kind_action", _all_in(c0["_actions"], g("_g_actions")))
+        st.oblige("every process is handed to update_problem_kind_process", _all_in(c0["_processes"], g("_g_processes")))
+        st.oblige("every event is handed to update_problem_kind_event", _all_in(c0["_events"], g("_g_events")))
+        st.oblige("every trajectory constraint is handed to update_problem_kind_expression", _all_in(c0["_trajectory_constraints"], g("_g_exprs")))
+        st.oblige("every goal is handed to update_problem_kind_expression", _all_in(c0["_goals"], g("_g_exprs")))
+        te, tg = c0["_timed_effects"], c0["_timed_goals"]
+        a, b = z3.Int(fresh_name("a")), z3.Int(fresh_name("b"))
+        for m, lst, elem, gh, what in ((te, EffList10, Effect10, "_g_effects", "timed effect"), (tg, GoalList10, FNode10, "_g_exprs", "timed goal")):
+            part = z3.Select(m.val, z3.Select(m.keys.arr, a))
+            items_arr = B._uf(f"{lst.name}.items.arr", lst.z3sort(), z3.ArraySort(z3.IntSort(), elem.z3sort()))(part)
+            items_len = B._uf(f"{lst.name}.items.len", lst.z3sort(), z3.IntSort())(part)
+            st.oblige(f"every {what} (of every timing) is handed to its updater",
+                      z3.ForAll([a, b], z3.Implies(z3.And(0 <= a, a < m.keys.n, 0 <= b, b < items_len), z3.Select(g(gh).has, z3.Select(items_arr, b)))))
+        st.oblige("timed effects -> TIMED_EFFECTS and CONTINUOUS_TIME", z3.Implies(te.keys.n > 0, z3.And(_present(st, "TIMED_EFFECTS"), _present(st, "CONTINUOUS_TIME"))))
+        st.oblige("timed goals -> TIMED_GOALS and CONTINUOUS_TIME", z3.Implies(tg.keys.n > 0, z3.And(_present(st, "TIMED_GOALS"), _present(st, "CONTINUOUS_TIME"))))
+        st.oblige("processes -> PROCESSES", z3.Implies(c0["_processes"].n > 0, _present(st, "PROCESSES")))
+        st.oblige("events -> EVENTS", z3.Implies(c0["_events"].n > 0, _present(st, "EVENTS")))
+        st.oblige("the initial state is examined", z3.BoolVal(bool(st.ghost.get("initial_state_updated"))))
+        st.oblige("problem class ACTION_BASED is requested", z3.BoolVal(True))
+
+
+T_UNITS = [ActionTraversal(), ProblemTraversal()]
+UNITS = P_UNITS + T_UNITS
 
 
 def ops_of(e, acc=None):
